@@ -103,9 +103,23 @@ void ChkIO(char const* Name) {
 Word Granularity(Byte Header, Byte Segment) {
     switch (Header) {
     case 0x09:
+    case 0x5a: /* TC9331 */
+    case 0x5b: /* KCPSM3 */
+    case 0x5c: /* Mico8 */
     case 0x76:
     case 0x7d:
+    case 0x7e: /* 7725 */
+    case 0x7f: /* 77230 */
         return 4;
+    case 0x02: /* ATARI_VECTOR */
+    case 0x0a: /* CP1600 */
+    case 0x3a: /* 8X30x */
+    case 0x43: /* SX20 */
+    case 0x4b: /* TMS320C54x */
+    case 0x4d: /* OLMS-50 */
+    case 0x4f: /* 1750 */
+    case 0x50: /* HMCS400 */
+    case 0x6b: /* KCPSM */
     case 0x36: /* MN161x */
     case 0x70:
     case 0x71:
